@@ -5,3 +5,97 @@
 
 // owner: group a6. `super::super` is the repository module `packet`.
 use super::super::*;
+
+/// The three extension-field lists of a decoded packet (private field `efdata`),
+/// each field rendered with its `Debug` form (type + full data), so that a monitor
+/// can compare *content* without naming private types.
+pub struct FieldLists {
+    pub authenticated: Vec<String>,
+    pub encrypted: Vec<String>,
+    pub untrusted: Vec<String>,
+}
+
+pub fn field_lists(p: &NtpPacket<'_>) -> FieldLists {
+    let f = |v: &Vec<ExtensionField<'_>>| v.iter().map(|e| format!("{e:?}")).collect::<Vec<_>>();
+    FieldLists {
+        authenticated: f(&p.efdata.authenticated),
+        encrypted: f(&p.efdata.encrypted),
+        untrusted: f(&p.efdata.untrusted),
+    }
+}
+
+/// (authenticated, encrypted, untrusted) list lengths and whether a legacy MAC is present
+pub fn field_counts(p: &NtpPacket<'_>) -> (usize, usize, usize, bool) {
+    (
+        p.efdata.authenticated.len(),
+        p.efdata.encrypted.len(),
+        p.efdata.untrusted.len(),
+        p.mac.is_some(),
+    )
+}
+
+/// The draft identification string the v5 decoder insists on.
+pub fn draft_version() -> &'static str {
+    v5::DRAFT_VERSION
+}
+
+/// AES-SIV (the `aes-siv` crate the repository's ciphers are built on) with a caller-chosen
+/// nonce: returns tag||ciphertext exactly as the repository's `Cipher::encrypt` lays it out
+/// (associated data = [aad, nonce]). Key length 32 -> AES-SIV-CMAC-256, 64 -> AES-SIV-CMAC-512.
+#[cfg(feature = "rustcrypto")]
+pub fn siv_encrypt(key: &[u8], nonce: &[u8], aad: &[u8], plaintext: &[u8]) -> Option<Vec<u8>> {
+    use aes_siv::{
+        KeyInit,
+        siv::{Aes128Siv, Aes256Siv},
+    };
+    match key.len() {
+        32 => {
+            let mut siv = Aes128Siv::new_from_slice(key).ok()?;
+            siv.encrypt([aad, nonce], plaintext).ok()
+        }
+        64 => {
+            let mut siv = Aes256Siv::new_from_slice(key).ok()?;
+            siv.encrypt([aad, nonce], plaintext).ok()
+        }
+        _ => None,
+    }
+}
+
+#[cfg(not(feature = "rustcrypto"))]
+pub fn siv_encrypt(_key: &[u8], _nonce: &[u8], _aad: &[u8], _plaintext: &[u8]) -> Option<Vec<u8>> {
+    None
+}
+
+/// Same primitive, decrypting (used by oracles to find out under which key something was sealed).
+#[cfg(feature = "rustcrypto")]
+pub fn siv_decrypt(key: &[u8], nonce: &[u8], aad: &[u8], ciphertext: &[u8]) -> Option<Vec<u8>> {
+    use aes_siv::{
+        KeyInit,
+        siv::{Aes128Siv, Aes256Siv},
+    };
+    match key.len() {
+        32 => {
+            let mut siv = Aes128Siv::new_from_slice(key).ok()?;
+            siv.decrypt([aad, nonce], ciphertext).ok()
+        }
+        64 => {
+            let mut siv = Aes256Siv::new_from_slice(key).ok()?;
+            siv.decrypt([aad, nonce], ciphertext).ok()
+        }
+        _ => None,
+    }
+}
+
+#[cfg(not(feature = "rustcrypto"))]
+pub fn siv_decrypt(_key: &[u8], _nonce: &[u8], _aad: &[u8], _ciphertext: &[u8]) -> Option<Vec<u8>> {
+    None
+}
+
+/// A session cipher (client key context) from raw key bytes: 32 bytes -> CMAC-256, 64 -> CMAC-512.
+pub fn cipher_from_key(key: &[u8]) -> Option<Box<dyn Cipher>> {
+    match key.len() {
+        32 => Some(Box::new(AesSivCmac256::try_from(key).ok()?)),
+        64 => Some(Box::new(AesSivCmac512::try_from(key).ok()?)),
+        _ => None,
+    }
+}
